@@ -2,6 +2,7 @@ import SlotVerif.Props.C08
 import SlotVerif.Props.C01
 import SlotVerif.Proofs.LookupEquiv
 import SlotVerif.Proofs.LookupFind
+import SlotVerif.Proofs.Variants
 /-!
 # C09 — Insertion is canonical: known terms create nothing, lookup agrees with add
 
@@ -109,5 +110,22 @@ theorem lookup_ignores_stale_handles {s : Snap} (h : Snap.checkInv s = true) {n 
     simp only [Bool.and_eq_true] at h
     exact h.1.1
   exact Snap.lookup_findNode hok hf
+
+/-- **the set of group-compatible variants does not depend on the spelling**: replace every child invocation of an e-node by
+any of its symmetric copies (one element of the child's class group each) — the set `get_group_compatible_variants` returns
+for the result is the set it returns for the original.  From `allPerms` = the generated subgroup (C10) and closure of a group
+under right multiplication; for every state, every node, every choice (`Proofs/Variants.lean`).  This is what makes "the
+minimum over the variants" (the canonical shape) and "the matcher visits every orientation of a symmetric child" independent
+of which symmetric spelling an e-node is given in. -/
+theorem variants_closed {s : Snap} {n : Node} (hok : ∀ a ∈ Node.appOcc n, Snap.ChildOK s a) {ps0 : List Perm}
+    (h0 : Snap.Pick ps0 ((Node.appOcc n).map (Snap.grpOf s))) (v : Node) :
+    v ∈ Snap.variants s (Snap.withApps n (Snap.applyAll (Node.appOcc n) ps0)) ↔ v ∈ Snap.variants s n :=
+  Snap.variants_of_variant hok h0 v
+
+/-- in particular every variant of a node has the node among its own variants' set: a variant of a variant is a variant -/
+theorem variant_of_variant_is_variant {s : Snap} {n : Node} (hok : ∀ a ∈ Node.appOcc n, Snap.ChildOK s a)
+    {ps0 : List Perm} (h0 : Snap.Pick ps0 ((Node.appOcc n).map (Snap.grpOf s))) {v : Node}
+    (hv : v ∈ Snap.variants s (Snap.withApps n (Snap.applyAll (Node.appOcc n) ps0))) : v ∈ Snap.variants s n :=
+  (Snap.variants_of_variant hok h0 v).mp hv
 
 end SV.C09
